@@ -59,6 +59,7 @@ def evaluate(spec):
               "opt-order:" + ("offset,resol" if cont.get("offset_first") else "resol,offset"), "blocks-before-idb:%d" % len(cont.get("extra_pre") or []),
               "interfaces:%d%s" % (cont.get("ifaces", 1), "-late" if cont.get("late_idb") and cont.get("ifaces", 1) > 1 else ""),
               "idle-interfaces:%d" % len(cont.get("idle_ifaces") or []), "first-interface:" + ("ethernet" if cont.get("idle_first") is None else "idle-linktype-%d" % cont["idle_first"]),
+              "packet-blocks:" + ("-" if not cont.get("packet_blocks") else "every-%d drops-%d" % (cont["packet_blocks"][0], cont["packet_blocks"][2])),
               "section-length:" + ("stated" if cont.get("section_length") else "-1"),
               "keys:" + ("file" if not cont.get("keys") else "dsb-only" if not cont["keys"].get("file") else "file+dsb")]
     nontrivial = dims >= 2 and bool(o0.pkts)
@@ -177,6 +178,8 @@ def container(draw):
     # the first interface of the file may be one without packets and of another link type (0 = BSD loopback, 113 = Linux cooked)
     c["idle_first"] = draw(st.sampled_from([None, None, None, 0, 113]))
     c["section_length"] = draw(st.booleans())      # Section Length of the SHB: the real number of bytes, or -1
+    # some or all packets in obsolete Packet Blocks (type 2) [every m-th, offset r, drops count]
+    c["packet_blocks"] = draw(st.sampled_from([None, None, None, [1, 0, 0], [1, 0, 0xFFFF], [2, 1, 7], [3, 0, 0xFFFF]]))
     if c["ifaces"] == 1:
         # ... or further interfaces without packets, each with time parameters of its own
         c["idle_ifaces"] = [[draw(st.integers(0, 40)), draw(st.sampled_from([6, 9, 3, 0, 0x8A])), draw(st.sampled_from([0, 0, 3600]))]
